@@ -573,6 +573,12 @@ def placement_scenarios(tier):
     for fl in ("raw", "bool", "unchecked"):
         for off, deny in ((64, "first"), (4092, "second"), (4093, "second"), (4094, "second"), (4095, "second"), (4093, "first"), (4090, "first")):
             add(flavour=fl, boolv=1, func_page=0x10000000, off=off, tramp_delta_pages=3, disp=1 << 20, deny=deny)
+    # the target's 6 bytes are the last readable bytes of their mapping (generated code in front of a guard page)
+    for v in (0, 1):
+        add(flavour="bool", boolv=v, func_page=0x10000000, off=4090, tramp_delta_pages=2, disp=0, last=True)
+    for fl in ("raw", "unchecked"):
+        add(flavour=fl, func_page=0x10000000, off=4090, tramp_delta_pages=-2, disp=1 << 20, last=True)
+        add(flavour=fl, func_page=0x10000000, off=4090, tramp_delta_pages=5, disp=M31 + 3, last=True)
     # the next function packed right behind the 6-byte target (no padding to a 16-byte boundary)
     for v in (0, 1):
         for off in (0, 64, 4084, 4090):
@@ -675,6 +681,8 @@ def placement_key(prop, sc, evs):
     straddle = off + 5 > 4096
     inst = next((e for e in evs if e["ev"] == "Installed"), None)
     crashed = any(e["ev"] == "ChildExit" and e["signal"] != 0 for e in evs)
+    if crashed and inst is None and sc.get("last"):
+        return "%s install-crash target=last-bytes-of-its-mapping flavour=%s" % (prop, sc.get("flavour"))
     if crashed and inst is None:
         return "%s install-crash page_off=%s straddle=%s" % (prop, off if straddle else "<4092", straddle)
     return "%s flavour=%s page_off=%s delta=%s disp=%s" % (prop, sc.get("flavour"), off, sc.get("tramp_delta_pages"), sc.get("disp"))
